@@ -28,6 +28,83 @@ From SC Require Import Base.Prelude Resource.Impl Resource.Spec Resource.Pull Re
 
 Set Implicit Arguments.
 
+(* ---------- "a reader that keeps receiving" catches up ---------- *)
+Section Progress.
+  Variable M : Type.
+  Variable rmask : Type.
+  Variable r_filter : rmask -> M -> M.
+  Variable id_tok : string -> Z.
+  Variable id_of : Z -> string.
+  Variable val_tok : M -> Z.
+  Variable val_of : Z -> option M.
+
+  Notation lsub := (lsub M rmask).
+  Notation pump_m := (@pump_m M rmask r_filter None id_of val_of).
+  Notation recv := (@recv M rmask r_filter None id_of val_of).
+  Notation drain := (@drain M rmask r_filter None id_of val_of).
+  Notation drained := (@drained M rmask r_filter None id_of val_of).
+  Notation PI := (@PI M rmask r_filter id_tok id_of val_tok val_of).
+
+  (* taking from the merger never lengthens its queue, and a change that survives was taken from it *)
+  Lemma pump_m_queue ro : forall fuel m g, closed m = false ->
+    (List.length (queue (fst (fst (pump_m fuel ro m g)))) <= List.length (queue m))%nat /\
+    (snd (pump_m fuel ro m g) <> None ->
+     (List.length (queue (fst (fst (pump_m fuel ro m g)))) < List.length (queue m))%nat).
+  Proof.
+    induction fuel as [|f IH]; intros m g Ho.
+    - simpl. split; [lia|intros C; exfalso; apply C; reflexivity].
+    - destruct (queue m) as [|i q] eqn:Q.
+      + assert (St : m_step m Recv = (m, ONothing)) by (unfold m_step; rewrite Ho, Q; reflexivity).
+        cbn [LossyPipe.pump_m]. rewrite St. simpl. rewrite Q. split; [simpl; lia|intros C; exfalso; apply C; reflexivity].
+      + set (c := match msgs m i with Some c => c | None => zero_change end).
+        set (m' := mkM (mdel (msgs m) i) q false).
+        assert (St : m_step m Recv = (m', OGot c)) by (unfold m_step; rewrite Ho, Q; reflexivity).
+        cbn [LossyPipe.pump_m]. rewrite St.
+        destruct (post r_filter None ro (dec id_of val_of c)) as [c'|].
+        * simpl. split; [lia|intros _; lia].
+        * destruct (IH m' (g ++ [c]) eq_refl) as [A B]. simpl in A, B. split; [simpl; lia|]. intros N. specialize (B N). simpl. lia.
+  Qed.
+
+  Definition backlog (l : lsub) : nat :=
+    ((match ls_slot l with Some _ => 1 | None => 0 end) + List.length (ls_seeds l) + List.length (queue (ls_m l)))%nat.
+
+  Lemma recv_backlog l : ls_pid l = None -> closed (ls_m l) = false -> ls_slot l <> None ->
+    (backlog (recv l) < backlog l)%nat.
+  Proof.
+    intros Hp Ho Hs. unfold LossyPipe.recv. rewrite Hp. unfold LossyPipe.take.
+    destruct (ls_slot l) as [c|] eqn:SL; [|exfalso; apply Hs; reflexivity].
+    cbn [snd]. unfold LossyPipe.pump. cbn [ls_slot ls_seeds ls_m ls_ro ls_gotm].
+    destruct (ls_seeds l) as [|s r] eqn:SE.
+    - pose proof (pump_m_queue (ls_ro l) (S (List.length (queue (ls_m l)))) (ls_m l) (ls_gotm l) Ho) as [A B].
+      destruct (pump_m (S (List.length (queue (ls_m l)))) (ls_ro l) (ls_m l) (ls_gotm l)) as [[m' g'] o].
+      unfold backlog. rewrite SL, SE. simpl in *. destruct o as [c'|].
+      + assert (N : Some c' <> None) by discriminate. specialize (B N). lia.
+      + lia.
+    - unfold backlog. rewrite SL, SE. simpl. lia.
+  Qed.
+
+  Lemma drain_catches_up L0 ro evs : forall fuel l,
+    PI L0 ro evs l -> (backlog l <= fuel)%nat ->
+    ls_slot (drain fuel l) = None /\ PI L0 ro evs (drain fuel l).
+  Proof.
+    induction fuel as [|f IH]; intros l P B.
+    - simpl. split; [|exact P]. unfold backlog in B. destruct (ls_slot l); [simpl in B; lia|reflexivity].
+    - simpl. unfold offering. rewrite (pi_pid P).
+      destruct (ls_slot l) as [c|] eqn:SL; [|split; [exact SL|exact P]].
+      apply IH; [apply PI_recv; exact P|].
+      assert (N : ls_slot l <> None) by (rewrite SL; discriminate).
+      pose proof (recv_backlog l (pi_pid P) (pi_open P) N). lia.
+  Qed.
+
+  (* the judge's "until nothing is offered": finitely many receives, after which nothing is offered *)
+  Theorem drained_catches_up L0 ro evs l :
+    PI L0 ro evs l -> ls_slot (drained l) = None /\ PI L0 ro evs (drained l).
+  Proof.
+    intros P. unfold LossyPipe.drained. apply drain_catches_up; [exact P|].
+    unfold backlog, pfuel. destruct (ls_slot l); simpl; lia.
+  Qed.
+End Progress.
+
 Section Closed.
   Variable M : Type.
   Variable m_eqb : M -> M -> bool.
@@ -472,84 +549,45 @@ Section Closed.
     split; [exact A|]. split; [exact B|]. split; [exact G|].
     intros SL. exact (lossy_caught_up P C W SL).
   Qed.
+
+  (* ... and for "a reader that keeps receiving" (the judge's drained: receive until nothing is
+     offered, which takes finitely many receives): nothing is offered, nothing is pending, what
+     the consumer has received is the seeds followed by an edit script from the snapshot to the
+     final contents, passed through include and the read mask *)
+  Theorem lossy_layer_converges_reader_keeps_receiving sched l :
+    let st := lrun sched (s0, []) in
+    all_done (fst st) = true -> In l (snd st) -> lossy_of (ls_tid l) = Some None ->
+    exists u, In u (st_csubs (fst st)) /\ cs_tid u = ls_tid l /\
+      (ro_updates_only (cs_ro u) = false ->
+       (forall e, In e (cs_evs u) -> id_of (id_tok (ce_id e)) = ce_id e) ->
+       let L0 := c_items (cs_at u) in
+       let X := c_items (w_c (st_w (fst st))) in
+       let l' := drained r_filter None id_of val_of l in
+       ls_slot l' = None /\ queue (ls_m l') = [] /\
+       (forall z, fold_view (ls_gotm l') (tokview L0) z = tokview X z) /\
+       valid_script (ls_gotm l') (tokview L0) = true /\
+       ls_gotc l' = allseeds r_filter (cs_ro u) L0 ++ fmap (post r_filter None (cs_ro u)) (map (dec id_of val_of) (ls_gotm l'))).
+  Proof.
+    intros st D Hl Lo. destruct (layer_run sched) as [_ [_ L2]]. fold st in L2.
+    destruct (L2 l Hl Lo) as (u & Hu & Et & _ & P).
+    exists u. split; [exact Hu|]. split; [exact Et|].
+    intros Hp RT L0 X l'.
+    destruct (drained_catches_up P) as [SL P']. fold l' in SL, P'.
+    assert (Es : fst st = run (threads_of sched) s0).
+    { unfold st. apply (lrun_projects r_filter None id_tok id_of val_tok val_of m_eqb m_empty w_validate w_merge clock_at
+                                       str_ltb idfun false false prog lossy_of sched (s0, [])). }
+    assert (C : chain L0 (cs_evs u) X).
+    { unfold L0, X. rewrite Es.
+      apply (deliveries_chain_done m_eqb m_empty w_validate w_merge r_filter clock_at str_ltb idfun m_eqb_eq ltb_irrefl
+               ltb_trans ltb_total prog prog_ok v0 c0 c0_sorted (threads_of sched)); [rewrite <- Es; exact D|rewrite <- Es; exact Hu|exact Hp]. }
+    assert (W : Forall ev_wf (cs_evs u)).
+    { assert (K : Forall kind_wf (cs_evs u)) by (apply (deliveries_kinds_wf (threads_of sched)); rewrite <- Es; exact Hu).
+      apply Forall_forall. intros e He. split; [exact (proj1 (Forall_forall _ _) K e He)|apply RT, He]. }
+    destruct (lossy_received_plus_pending P' C W) as (_ & B & _).
+    destruct (lossy_caught_up P' C W SL) as (A1 & A2 & A3).
+    split; [exact SL|]. split; [exact A3|]. split; [exact A1|]. split; [exact B|exact A2].
+  Qed.
 End Closed.
-
-(* ---------- "a reader that keeps receiving" catches up ---------- *)
-Section Progress.
-  Variable M : Type.
-  Variable rmask : Type.
-  Variable r_filter : rmask -> M -> M.
-  Variable id_tok : string -> Z.
-  Variable id_of : Z -> string.
-  Variable val_tok : M -> Z.
-  Variable val_of : Z -> option M.
-
-  Notation lsub := (lsub M rmask).
-  Notation pump_m := (@pump_m M rmask r_filter None id_of val_of).
-  Notation recv := (@recv M rmask r_filter None id_of val_of).
-  Notation drain := (@drain M rmask r_filter None id_of val_of).
-  Notation drained := (@drained M rmask r_filter None id_of val_of).
-  Notation PI := (@PI M rmask r_filter id_tok id_of val_tok val_of).
-
-  (* taking from the merger never lengthens its queue, and a change that survives was taken from it *)
-  Lemma pump_m_queue ro : forall fuel m g, closed m = false ->
-    (List.length (queue (fst (fst (pump_m fuel ro m g)))) <= List.length (queue m))%nat /\
-    (snd (pump_m fuel ro m g) <> None ->
-     (List.length (queue (fst (fst (pump_m fuel ro m g)))) < List.length (queue m))%nat).
-  Proof.
-    induction fuel as [|f IH]; intros m g Ho.
-    - simpl. split; [lia|intros C; exfalso; apply C; reflexivity].
-    - destruct (queue m) as [|i q] eqn:Q.
-      + assert (St : m_step m Recv = (m, ONothing)) by (unfold m_step; rewrite Ho, Q; reflexivity).
-        cbn [LossyPipe.pump_m]. rewrite St. simpl. rewrite Q. split; [simpl; lia|intros C; exfalso; apply C; reflexivity].
-      + set (c := match msgs m i with Some c => c | None => zero_change end).
-        set (m' := mkM (mdel (msgs m) i) q false).
-        assert (St : m_step m Recv = (m', OGot c)) by (unfold m_step; rewrite Ho, Q; reflexivity).
-        cbn [LossyPipe.pump_m]. rewrite St.
-        destruct (post r_filter None ro (dec id_of val_of c)) as [c'|].
-        * simpl. split; [lia|intros _; lia].
-        * destruct (IH m' (g ++ [c]) eq_refl) as [A B]. simpl in A, B. split; [simpl; lia|]. intros N. specialize (B N). simpl. lia.
-  Qed.
-
-  Definition backlog (l : lsub) : nat :=
-    ((match ls_slot l with Some _ => 1 | None => 0 end) + List.length (ls_seeds l) + List.length (queue (ls_m l)))%nat.
-
-  Lemma recv_backlog l : ls_pid l = None -> closed (ls_m l) = false -> ls_slot l <> None ->
-    (backlog (recv l) < backlog l)%nat.
-  Proof.
-    intros Hp Ho Hs. unfold LossyPipe.recv. rewrite Hp. unfold LossyPipe.take.
-    destruct (ls_slot l) as [c|] eqn:SL; [|exfalso; apply Hs; reflexivity].
-    cbn [snd]. unfold LossyPipe.pump. cbn [ls_slot ls_seeds ls_m ls_ro ls_gotm].
-    destruct (ls_seeds l) as [|s r] eqn:SE.
-    - pose proof (pump_m_queue (ls_ro l) (S (List.length (queue (ls_m l)))) (ls_m l) (ls_gotm l) Ho) as [A B].
-      destruct (pump_m (S (List.length (queue (ls_m l)))) (ls_ro l) (ls_m l) (ls_gotm l)) as [[m' g'] o].
-      unfold backlog. rewrite SL, SE. simpl in *. destruct o as [c'|].
-      + assert (N : Some c' <> None) by discriminate. specialize (B N). lia.
-      + lia.
-    - unfold backlog. rewrite SL, SE. simpl. lia.
-  Qed.
-
-  Lemma drain_catches_up L0 ro evs : forall fuel l,
-    PI L0 ro evs l -> (backlog l <= fuel)%nat ->
-    ls_slot (drain fuel l) = None /\ PI L0 ro evs (drain fuel l).
-  Proof.
-    induction fuel as [|f IH]; intros l P B.
-    - simpl. split; [|exact P]. unfold backlog in B. destruct (ls_slot l); [simpl in B; lia|reflexivity].
-    - simpl. unfold offering. rewrite (pi_pid P).
-      destruct (ls_slot l) as [c|] eqn:SL; [|split; [exact SL|exact P]].
-      apply IH; [apply PI_recv; exact P|].
-      assert (N : ls_slot l <> None) by (rewrite SL; discriminate).
-      pose proof (recv_backlog l (pi_pid P) (pi_open P) N). lia.
-  Qed.
-
-  (* the judge's "until nothing is offered": finitely many receives, after which nothing is offered *)
-  Theorem drained_catches_up L0 ro evs l :
-    PI L0 ro evs l -> ls_slot (drained l) = None /\ PI L0 ro evs (drained l).
-  Proof.
-    intros P. unfold LossyPipe.drained. apply drain_catches_up; [exact P|].
-    unfold backlog, pfuel. destruct (ls_slot l); simpl; lia.
-  Qed.
-End Progress.
 
 (* the judge's token tables (Conc/Judge.v tok_id / id_at: the position of an id in the table of the
    ids the run's deliveries mention) do satisfy the one hypothesis left about tokens *)
